@@ -43,6 +43,8 @@ def renamed(new_name):
 
 
 now_nonfunction = 3
+now_builtin = max                 # a name that used to be a traced Python function and is now bound to a C builtin
+now_bound_builtin = [].append     # ... to a bound builtin method
 
 
 class now_class:
@@ -130,6 +132,10 @@ def row_for(kind, mod, n=0):
         return (mod, "P.meth", '{"x": %s}' % cls_json(mod[:-1], "C"), t, None)
     if kind == "nowraps":
         return (mod, "unwrapped", '{"a": %s}' % t, t, None)
+    if kind == "now_builtin":
+        return (mod, "now_builtin", '{"a": %s}' % t, t, None)
+    if kind == "now_bound_builtin":
+        return (mod, "now_bound_builtin", '{"a": %s}' % t, None, None)
     if kind == "dunder_removed":
         # the class no longer defines the method; the name still resolves, through inheritance, to a C-implemented
         # slot wrapper of `object` - which is not a Python function
@@ -311,6 +317,12 @@ def gen_cases(tier, seed):
     for ks in (["nowraps"], ["valid", "nowraps"], ["nowraps", "function_removed", "valid2"]):
         cases.append({"kinds": ks, "cmd": "stub", "verbose": False})
     plan.append({"family": "extended alphabet: decorator without functools.wraps", "cases": len(cases) - n0})
+    # names that are no longer Python functions but C builtins (they cannot be what was traced)
+    n0 = len(cases)
+    for ks in (["now_builtin"], ["valid", "now_builtin"], ["now_bound_builtin", "valid2"], ["now_bound_builtin"]):
+        for cmd in ("stub", "apply"):
+            cases.append({"kinds": ks, "cmd": cmd, "verbose": False})
+    plan.append({"family": "a traced name now bound to a C builtin / a bound builtin method", "cases": len(cases) - n0})
     for i, c in enumerate(cases):
         c["tid"] = i + 1
     return cases, plan
@@ -344,7 +356,8 @@ def main(pid, tier, seed, replay=None):
     for v in verdicts:
         rec = by_tid[v["tid"]]
         for clause in v.get("viol", []):
-            run.violation({"clause": clause, "cmd": rec["cmd"], "crashed": rec["crashed"], "has_nowraps": "nowraps" in rec["kinds"]},
+            run.violation({"clause": clause, "cmd": rec["cmd"], "crashed": rec["crashed"], "has_nowraps": "nowraps" in rec["kinds"],
+                           **({"name_now_bound_to_builtin": True} if {"now_builtin", "now_bound_builtin"} & set(rec["kinds"]) else {})},
                           {k: case_by[v["tid"]][k] for k in case_by[v["tid"]] if k != "tid"})
     extended = None
     if not replay:
